@@ -404,6 +404,35 @@ def _arg_builder(idx, is_zip):
     return None
 
 
+def string_annotation_parameters(prog: Program, rep: Report, rule: str):
+    """The hints of `Stack[int]` are the hints of `Stack` with T replaced -- which works on annotation *objects*.  Where the
+    constructor's annotations are strings (`from __future__ import annotations`, `items: "list[T]"`) the hint kept for a
+    parameter is a lazy reference, in which nothing can be replaced: the reference may be kept only where the evaluated
+    annotation is known to mention no type parameter."""
+    hs = prog.functions.get(f"{C.INSP}._hints_from_signature")
+    if hs is None:
+        rep.undecided(rule, f"{C.INSP}._hints_from_signature", "", "anchor not found", detail="string-annotation-parameters")
+        return
+    n, blind = 0, 0
+    for p in P.paths_of(prog, hs):
+        guards_so_far: list = []
+        for e in p.events:
+            if e[0] == "guard":
+                guards_so_far.append((e[1], e[2]))
+            if e[0] == "setitem" and T.contains(e[3], lambda y: T.is_call_to(y, "typelib.py.refs.forwardref") and y[2] and T.contains(y[2][0], lambda z: z[0] == "attr" and z[2] == "annotation")):
+                n += 1
+                atoms = T.derive_atoms(guards_so_far)
+                obj = ("param", hs.params[0])
+                about_obj = lambda a: T.contains(a, lambda y: T.is_call_to(y, "typing.get_origin") and y[2][:1] == (obj,))  # noqa: E731  (the test whether obj itself is an alias)
+                unparameterised = any((not val) and not about_obj(a) and T.contains(a, lambda y: y == ("const", "__parameters__") or (y[0] == "attr" and y[2] == "__parameters__")) for a, val in atoms)
+                if not unparameterised:
+                    blind += 1
+    if not n:
+        rep.held(rule, hs.qualname, hs.loc, "no lazy reference is kept for a string annotation", detail="string-annotation-parameters", nontrivial=False)
+        return
+    rep.check(not blind, rule, hs.qualname, hs.loc, f"a lazy reference is kept for a string annotation only where its evaluated form mentions no type parameter ({n} store(s) on paths)", "every string annotation of a constructor is kept as a lazy reference: for `class Stack(Generic[T])` written under `from __future__ import annotations` the parameter T of `items: list[T]` is never replaced -- unmarshal(Stack[int], {'items': ['a', None]}) returns the members unconverted, the graph of Stack[int] has list[~T] and no list[int]", detail="string-annotation-parameters")
+
+
 def alias_substitution(prog: Program, rep: Report, rule: str):
     """Where the member hints of a parameterised user generic are re-subscripted (`dict[V, K]` of `Index[str, int]` becomes
     `dict[int, str]`) the new arguments follow the *member's own* parameter order (member.__parameters__), each looked up in the
@@ -493,6 +522,7 @@ def run(prog: Program, rep: Report, tier: str):
     classvar_no_field(prog, rep, "R15.11")
     rep.rule("R15.10", "substituted arguments of a generic member follow the member's own parameter order", floor=1)
     alias_substitution(prog, rep, "R15.10")
+    string_annotation_parameters(prog, rep, "R15.10")
     rep.rule("R15.8", "helper call cycles on the same object are cut by a flag fixed on re-entry", floor=1)
     r15_8(prog, rep)
     rep.rule("R15.7", "emptiness tests precede constant indexing of the same sequence within one boolean expression", floor=1)
